@@ -3,6 +3,7 @@ import SeqIoModel.Proofs.FastqStream
 import SeqIoModel.Proofs.FastaHistory
 import SeqIoModel.Proofs.FastqHistorySeek
 import SeqIoModel.Proofs.AbstractReader
+import SeqIoModel.Proofs.SetIndependence
 /-!
 # C04 – all ways of reading one reader deliver the same records exactly once
 
@@ -114,5 +115,27 @@ theorem fastq_accepted_means_in_order_exactly_once {items : List Spec.FqItem} {a
       Fastq.Hist.IsSegment items a.k (a.k + Fastq.Hist.deliveredCounts ops obs)
         (Fastq.Hist.deliveredRecs items a ops obs) :=
   Fastq.Hist.acceptsA_delivers hns hne h
+
+/-! ## "a refilled record set contains only the new batch" – whatever the set held before, from whichever reader
+
+A record set is a value of its own: it may have been filled by the same reader, by ANOTHER reader over another
+input, or never.  What a set read does – the new reader state, the result and everything a caller can see of the set
+afterwards – does not depend on the previous contents of the set (`Proofs/SetIndependence.lean`; the error clause is
+exact: after an error both sets show nothing, except when a NEW reader fails in its very first fill, which happens
+before the set is touched – then the set is left as it was). -/
+
+theorem fasta_shared_set_shows_only_second_reader (f1 f2 : Nat) (r1 r2 : Fasta.Reader) (rs : Fasta.RecordSet)
+    (n1 n2 : Option Nat)
+    (hok : (Fasta.readRecordSetExact f2 r2 (Fasta.readRecordSetExact f1 r1 rs n1).2.1 n2).2.2 = .ok true) :
+    Fasta.Hist.obsDump (Fasta.readRecordSetExact f2 r2 (Fasta.readRecordSetExact f1 r1 rs n1).2.1 n2).2.1 =
+      Fasta.Hist.obsDump (Fasta.readRecordSetExact f2 r2 {} n2).2.1 :=
+  (SetIndependence.Fa.fasta_shared_set_shows_only_second_reader f1 f2 r1 r2 rs n1 n2 hok).1
+
+theorem fastq_shared_set_shows_only_second_reader (f1 f2 : Nat) (r1 r2 : Fastq.Reader) (rs : Fastq.RecordSet)
+    (n1 n2 : Option Nat)
+    (hok : (Fastq.readRecordSetExact f2 r2 (Fastq.readRecordSetExact f1 r1 rs n1).2.1 n2).2.2 = .ok true) :
+    (Fastq.readRecordSetExact f2 r2 (Fastq.readRecordSetExact f1 r1 rs n1).2.1 n2).2.1 =
+      (Fastq.readRecordSetExact f2 r2 {} n2).2.1 :=
+  (SetIndependence.Fq.fastq_shared_set_shows_only_second_reader f1 f2 r1 r2 rs n1 n2 hok).1
 
 end SeqIo.Thm.C04
